@@ -18,6 +18,7 @@ import (
 	"strings"
 	"sync"
 	"sync/atomic"
+	"syscall"
 	"testing"
 	"time"
 
@@ -29,7 +30,7 @@ import (
 
 type vfScen struct {
 	ID       string `json:"id"`
-	Kind     string `json:"kind"`     // perio | mcast | stop | once
+	Kind     string `json:"kind"`     // perio | mcast | stop | once | retain | tickfail
 	N        int    `json:"n"`        // sessions
 	U        int    `json:"u"`        // periodic URRs per session
 	Bulk     string `json:"bulk"`     // reassoc | delete
@@ -55,6 +56,8 @@ type vfScenOut struct {
 	Stopped   bool   `json:"stopped"` // all goroutines terminated after Stop
 	Fatal     string `json:"fatal"`
 	WallMs    int    `json:"wallms"`
+	Bad       string `json:"bad"`  // retain / tickfail: what the statement forbids and was observed ("" = nothing)
+	Note      string `json:"note"` // retain / tickfail: measured facts
 }
 
 func vfDump() string {
@@ -257,6 +260,9 @@ func vfRunScenario(t *testing.T, k int, s vfScen) vfScenOut {
 	if s.Kind == "stop" || s.Kind == "once" {
 		timeout = 3 * time.Millisecond
 	}
+	if s.Kind == "retain" {
+		timeout = vfRetainW / 2 // maxRetrans 1: the retention window is two time-outs
+	}
 	st, err := vf2NewStack(k, 1, timeout)
 	if err != nil {
 		t.Fatalf("INFRA: %v", err)
@@ -336,6 +342,12 @@ func vfRunScenario(t *testing.T, k int, s vfScen) vfScenOut {
 		e := vfEvent{T: "mod", SEID: "1", Peer: "p1", Seq: en.nseq(), Ops: []vfOp{{Op: "create", Kind: "qer", ID: 7, Meth: -1, MInfo: -1}}}
 		en.send("p1", e)
 		probe()
+	case "retain":
+		vfRetain(en, &s, &o)
+		probe()
+	case "tickfail":
+		vfTickFail(en, &s, &o)
+		probe()
 	case "once", "stop":
 		vfConcurrent(en, &s, &o)
 		if s.Kind == "once" {
@@ -365,6 +377,133 @@ func vfRunScenario(t *testing.T, k int, s vfScen) vfScenOut {
 	}
 	o.WallMs = int(time.Since(t0) / time.Millisecond)
 	return o
+}
+
+// ---------------------------------------------------------------- real timers (no injected expiries)
+
+const vfRetainW = 1200 * time.Millisecond
+
+// vfCreates counts the netlink create requests the simulated kernel has seen for FAR id of session seid
+func vfCreates(k *simk.Kernel, log *[]simk.Req, seid uint64, id uint64) int {
+	*log = append(*log, k.TakeLog()...)
+	n := 0
+	for _, r := range *log {
+		if r.Op == "create" && r.Kind == "far" && r.SEID == seid && r.ID == id {
+			n++
+		}
+	}
+	return n
+}
+
+// vfRetain (C06 with the real retention timers): request R1, its duplicate inside the window, the window elapses, a NEW
+// request R2 with the same sequence number, its duplicate inside R2's window. R2 must be executed once. Every verdict is
+// conditional on measured times: a duplicate counts only if its answer arrived within 0.8 W of the moment R2 was sent.
+func vfRetain(en *vfStressEnv, s *vfScen, o *vfScenOut) {
+	W := vfRetainW
+	m, ok := en.call("p1", vfEvent{T: "est", Node: "n1", CP: "70", Ops: []vfOp{{Op: "create", Kind: "far", ID: 1, Meth: -1, MInfo: -1}}}, 10*time.Second)
+	if !ok {
+		o.Note = "establishment not answered"
+		return
+	}
+	var seid uint64
+	if r, ok := m.(*message.SessionEstablishmentResponse); ok && r.UPFSEID != nil {
+		if f, err := r.UPFSEID.FSEID(); err == nil {
+			seid = f.SEID
+		}
+	}
+	var log []simk.Req
+	req := func(far int, seq int) vfEvent {
+		return vfEvent{T: "mod", SEID: strconv.FormatUint(seid, 10), Peer: "p1", Seq: seq,
+			Ops: []vfOp{{Op: "create", Kind: "far", ID: far, Meth: -1, MInfo: -1}}}
+	}
+	// exchange sends e and waits for the Modification Response with its sequence number
+	exchange := func(e vfEvent) (time.Duration, bool) {
+		t := time.Now()
+		en.send("p1", e)
+		c := en.nw.conns["p1"]
+		buf := make([]byte, 65536)
+		for time.Since(t) < 3*time.Second {
+			_ = c.SetReadDeadline(time.Now().Add(20 * time.Millisecond))
+			n, _, err := c.ReadFromUDP(buf)
+			if err == nil && n >= 16 && buf[1] == 53 && int(buf[12])<<16|int(buf[13])<<8|int(buf[14]) == e.Seq {
+				_ = c.SetReadDeadline(time.Time{})
+				return time.Since(t), true
+			}
+		}
+		_ = c.SetReadDeadline(time.Time{})
+		return time.Since(t), false
+	}
+	seq := 4000 + int(s.Seed%1000)
+	t0 := time.Now()
+	at := func(d time.Duration) {
+		if w := d - time.Since(t0); w > 0 {
+			time.Sleep(w)
+		}
+	}
+	exchange(req(50, seq))                   // R1
+	at(W * 7 / 10)
+	exchange(req(50, seq))                   // duplicate of R1: restarts nothing, must not arm anything that fires later
+	c1 := vfCreates(en.st.k, &log, seid, 50)
+	at(W * 13 / 10)
+	tR2 := time.Now()
+	exchange(req(51, seq))                   // R2: R1's window has elapsed, this is a new request
+	c2 := vfCreates(en.st.k, &log, seid, 51)
+	at(W * 19 / 10)
+	_, okd := exchange(req(51, seq))          // duplicate of R2, well inside R2's window
+	late := time.Since(tR2)
+	c3 := vfCreates(en.st.k, &log, seid, 51)
+	o.Note = fmt.Sprintf("W=%v creates(R1)=%d creates(R2)=%d after-duplicate=%d duplicate-answered=%v %v after R2", W, c1, c2, c3, okd, late)
+	if c1 > 1 {
+		o.Bad = "C06:a duplicate inside the retention window was executed again (real timers)"
+	}
+	if c2 == 1 && c3 > 1 && late < W*8/10 {
+		o.Bad = "C06:a duplicate inside the retention window of a later request with the same sequence number was executed again (real timers)"
+	}
+}
+
+// vfTickFail (C15 / C18 with the real period tickers): a periodic URR with a period of one second; one multi-report query
+// fails; the ticks after it must report again.
+func vfTickFail(en *vfStressEnv, s *vfScen, o *vfScenOut) {
+	st := en.st
+	if _, ok := en.call("p1", vfEvent{T: "est", Node: "n1", CP: "71", Ops: vfPerioOps(2, 1)}, 10*time.Second); !ok {
+		o.Note = "establishment not answered"
+		return
+	}
+	// count periodic session reports arriving at the SMF
+	count := func(d time.Duration) int {
+		c := en.nw.conns["p1"]
+		buf := make([]byte, 65536)
+		n := 0
+		for t := time.Now(); time.Since(t) < d; {
+			_ = c.SetReadDeadline(time.Now().Add(50 * time.Millisecond))
+			k, _, err := c.ReadFromUDP(buf)
+			if err == nil && k >= 16 && buf[1] == 56 {
+				n++
+			}
+		}
+		_ = c.SetReadDeadline(time.Time{})
+		return n
+	}
+	before := count(2500 * time.Millisecond)
+	var failed int32
+	st.k.SetLocked(func() {
+		st.k.Fail = func(r *simk.Req) int {
+			if r.Op == "mquery" && atomic.CompareAndSwapInt32(&failed, 0, 1) {
+				return int(syscall.EIO)
+			}
+			return 0
+		}
+	})
+	during := count(1800 * time.Millisecond)
+	after := 0
+	if atomic.LoadInt32(&failed) == 1 {
+		after = count(4500 * time.Millisecond)
+	}
+	st.k.SetLocked(func() { st.k.Fail = nil })
+	o.Note = fmt.Sprintf("periodic reports: %d before, %d around the failing query, %d in the 4.5 s after it (query failed: %v)", before, during, after, failed == 1)
+	if before >= 1 && failed == 1 && after == 0 {
+		o.Bad = "C15:after one failed multi-report query the period never ticked again: registered URRs are no longer queried (real tickers)"
+	}
 }
 
 // vfConcurrent: SMFs issuing random valid histories with duplicates, report producers multicasting buffer
